@@ -60,6 +60,7 @@ struct Seen
     unsigned long long ino;
     long long size;
     long long mt;
+    unsigned long long edge;
 };
 std::map<std::string, Seen> g_seen;
 bool g_hitAny = false;
@@ -94,25 +95,28 @@ QJsonArray listDir(const std::string &root, bool forceContent)
             const long long mt = (long long)st.st_mtim.tv_sec * 1000 + st.st_mtim.tv_nsec / 1000000;
             f["size"] = (double)st.st_size;
             f["mt"] = (double)mt;
-            Seen s { (unsigned long long)st.st_ino, (long long)st.st_size, mt };
+            // the content is passed with every listing; only for large files that provably did not change since the
+            // previous listing (same inode, size, mtime AND same bytes at both ends) it is replaced by "same" -
+            // inode numbers are reused, sizes and virtual mtimes repeat
+            QByteArray content;
+            int fd = ::open(p.c_str(), O_RDONLY);
+            if (fd >= 0) {
+                char buf[65536];
+                ssize_t r;
+                while ((r = ::read(fd, buf, sizeof buf)) > 0)
+                    content.append(buf, int(r));
+                ::close(fd);
+            }
+            const unsigned long long edge = qHash(content.left(4096)) * 1000003ULL + qHash(content.right(4096)) + qHash(content.mid(content.size() / 2, 4096));
+            Seen s { (unsigned long long)st.st_ino, (long long)st.st_size, mt, edge };
             now[kv.first] = s;
             auto it = g_seen.find(kv.first);
-            const bool same = !forceContent && it != g_seen.end() && it->second.ino == s.ino
-                    && it->second.size == s.size && it->second.mt == s.mt;
-            if (same) {
+            const bool same = !forceContent && st.st_size > 65536 && it != g_seen.end() && it->second.ino == s.ino
+                    && it->second.size == s.size && it->second.mt == s.mt && it->second.edge == s.edge;
+            if (same)
                 f["same"] = true;
-            } else {
-                QByteArray content;
-                int fd = ::open(p.c_str(), O_RDONLY);
-                if (fd >= 0) {
-                    char buf[65536];
-                    ssize_t r;
-                    while ((r = ::read(fd, buf, sizeof buf)) > 0)
-                        content.append(buf, int(r));
-                    ::close(fd);
-                }
+            else
                 f["b64"] = QString::fromLatin1(content.toBase64());
-            }
             out.append(f);
         }
     }
